@@ -58,6 +58,9 @@ type nodeTemplate struct {
 	unsignedHex   string // the same, unsigned
 	secretOfAddr  map[string]cipher.SecKey
 	walletSecrets []cipher.SecKey
+	// a signed block for the template's head that confirms a competitor of the first pooled transaction
+	// (so that the pooled one turns into a double spend), not executed in the template
+	nextBlock coin.SignedBlock
 }
 
 var (
@@ -286,6 +289,14 @@ func buildTemplate() (*nodeTemplate, error) {
 		if _, _, err := v.InjectForeignTransaction(p); err != nil {
 			return nil, fmt.Errorf("pool transaction %d: %v", i, err)
 		}
+	}
+	{
+		competitor := spend(us[0], now, []cipher.Address{c28Users[2].Addr}, []uint64{us[0].ux.Body.Coins / 4 / 1e6 * 1e6})
+		b, err := v.CreateBlockFromTxns(coin.Transactions{competitor}, now+3600*24)
+		if err != nil {
+			return nil, fmt.Errorf("competitor block: %v", err)
+		}
+		t.nextBlock = coin.SignedBlock{Block: b, Sig: cipher.MustSignHash(b.HashHeader(), c28Publisher.Sec)}
 	}
 	sp := spend(us[3], now, []cipher.Address{c28Users[2].Addr}, []uint64{us[3].ux.Body.Coins / 2 / 1e6 * 1e6})
 	t.spendableHex = hex.EncodeToString(mustSerialize(sp))
